@@ -153,7 +153,7 @@ def to_case(v):
     toks, lseed, cseed = v
     cseed = family.cfg_seed(cseed)
     rng = random.Random(lseed)
-    src, r = layout.render(toks, rng, 'C', dict(p_trail=0.3, p_tab=0.25, p_cmt=0.1, blank=3))
+    src, r = layout.render(toks, rng, 'C', dict(p_trail=0.3, p_tab=0.25, p_cmt=0.1, blank=3, p_bs_trail=0.3, p_cont=0.8))
     if lseed % 5 == 0:
         src = src.rstrip('\n')
     return family.Case(src.encode('utf-8'), 'C', draw_cfg(random.Random(cseed), (0, 0.02, 0.06)[cseed % 3], cseed % 4 == 0),
